@@ -3,8 +3,11 @@ package main
 import (
 	"crypto/sha1"
 	"encoding/hex"
+	"fmt"
 	"math/rand"
 	"strings"
+
+	"github.com/golang/protobuf/proto"
 
 	"github.com/openacid/slim/trie"
 )
@@ -62,6 +65,39 @@ type lookupOpts struct {
 	table      bool
 	loaded     bool // also observe the trie reloaded from its own bytes
 	keysObs    bool
+	mcheck     bool // C05: determinism and size of Marshal
+}
+
+// McheckEv: Marshal is deterministic, its length is the advertised size, and
+// re-marshalling a loaded trie reproduces the bytes.
+func McheckEv(c *TrieCase, st *trie.SlimTrie) (e Ev) {
+	e = Ev{"ev": "mcheck", "pan": "", "mlen": -1, "psize": -2, "twice": 0, "rebuilt": 0, "remarshal": 0, "protomarshal": 0}
+	defer func() {
+		if r := recover(); r != nil {
+			e["pan"] = fmt.Sprint(r)
+		}
+	}()
+	b1, err := st.Marshal()
+	if err != nil {
+		e["pan"] = "error: " + err.Error()
+		return
+	}
+	e["mlen"] = len(b1)
+	e["psize"] = proto.Size(st)
+	b2, _ := st.Marshal()
+	e["twice"] = b2i(string(b1) == string(b2))
+	if st2, _, _ := c.Build(); st2 != nil {
+		b3, _ := st2.Marshal()
+		e["rebuilt"] = b2i(string(b1) == string(b3))
+	}
+	if st3, _, _ := Reload(c, st); st3 != nil {
+		b4, _ := st3.Marshal()
+		e["remarshal"] = b2i(string(b1) == string(b4))
+	}
+	if b5, err := proto.Marshal(st); err == nil {
+		e["protomarshal"] = b2i(string(b1) == string(b5))
+	}
+	return
 }
 
 // runLookupCase executes one case against the real library and emits its events.
@@ -96,6 +132,9 @@ func runLookupCase(t *Tracer, m *Meta, r *rand.Rand, c *TrieCase, lo lookupOpts)
 			}
 		}
 		t.Emit(StatEv(st))
+		if lo.mcheck {
+			t.Emit(McheckEv(c, st))
+		}
 		if lo.keysObs {
 			t.Emit(ObsEv(c, st, "k", c.Keys, nil))
 			m.Calls += 4 * len(c.Keys)
@@ -294,7 +333,7 @@ func genLookup(t *Tracer, m *Meta, prop, tier string, seed int64) {
 					}
 				}
 				c := &TrieCase{Keys: keys, Enc: enc, Vals: vals, Opt4: o4}
-				runLookupCase(t, m, r, c, lookupOpts{allQueries: strs, table: true, loaded: r.Intn(2) == 0, keysObs: true})
+				runLookupCase(t, m, r, c, lookupOpts{allQueries: strs, table: true, loaded: r.Intn(2) == 0 || prop == "C05", keysObs: true, mcheck: prop == "C05"})
 			}
 		})
 		m.class("universe:" + u.Name)
@@ -324,7 +363,7 @@ func genLookup(t *Tracer, m *Meta, prop, tier string, seed int64) {
 				c.NoOpt = true
 				c.Opt4 = [4]int{2, 2, 2, 2}
 			}
-			runLookupCase(t, m, r, c, lookupOpts{qlimit: 300, table: true, loaded: true, keysObs: true})
+			runLookupCase(t, m, r, c, lookupOpts{qlimit: 300, table: true, loaded: true, keysObs: true, mcheck: prop == "C05"})
 		}
 		m.class("family:" + fam)
 	}
@@ -352,7 +391,7 @@ func genLookup(t *Tracer, m *Meta, prop, tier string, seed int64) {
 			vals = valsFromPattern(enc, len(keys), 0, int64(r.Intn(100))) // distinct: keeps the sought shape
 		}
 		c := &TrieCase{Keys: keys, Enc: enc, Vals: vals, Opt4: o4}
-		runLookupCase(t, m, r, c, lookupOpts{qlimit: 200, table: true, loaded: true, keysObs: true})
+		runLookupCase(t, m, r, c, lookupOpts{qlimit: 200, table: true, loaded: true, keysObs: true, mcheck: prop == "C05"})
 		m.class("boundary:" + boundaryConds[ci].Name)
 	}
 	// (3) degenerate: empty and single-key tries in every option combination
@@ -360,7 +399,7 @@ func genLookup(t *Tracer, m *Meta, prop, tier string, seed int64) {
 		for _, keys := range [][]string{{}, {""}, {"a"}, {"\x00\xff\x80"}} {
 			enc := pickEnc(r, prop)
 			c := &TrieCase{Keys: keys, Enc: enc, Vals: mkVals(r, prop, enc, len(keys)), Opt4: o4}
-			runLookupCase(t, m, r, c, lookupOpts{qlimit: 40, table: true, loaded: true, keysObs: true})
+			runLookupCase(t, m, r, c, lookupOpts{qlimit: 40, table: true, loaded: true, keysObs: true, mcheck: prop == "C05"})
 		}
 	}
 }
